@@ -377,11 +377,13 @@ func (h *H) checkLifecycle(msgs []*Msg) {
 // exactly-once ones exactly once.
 func (h *H) checkDelivered(msgs []*Msg, brokers ...*refmqtt.Broker) {
 	count := map[string]int{}
-	for _, b := range brokers {
-		for _, d := range b.Deliveries {
-			count[d.Topic]++
+	h.WithLock(func() { // (the broker model is fed by whoever writes to a connection)
+		for _, b := range brokers {
+			for _, d := range b.Deliveries {
+				count[d.Topic]++
+			}
 		}
-	}
+	})
 	for _, m := range msgs {
 		if m.AcceptedSeq == 0 {
 			continue
